@@ -1,6 +1,7 @@
 """Path exploration by re-execution, the dual-mode contract environment (symbolic proof /
 concrete twin on the real code), obligation records."""
 from __future__ import annotations
+import os
 import time, traceback, random, math, importlib, itertools
 from fractions import Fraction as Q
 import numpy as np
@@ -167,6 +168,7 @@ class Env:
         self.sample = dict(sample or {})
         self.rng = rng or random.Random(0)
         self.regime = regime          # None: random regime per input ; or callable(decl, rng)->regime
+        self.regimes_used = {}
         self.decls = []
         self.clauses = []      # (name, status, detail)
         self.tol = tol
@@ -202,6 +204,7 @@ class Env:
             return builder_sym(d)
         if d.name not in self.sample:
             r = self.regime(d, self.rng) if self.regime else self.rng.choice(d.regimes)
+            self.regimes_used[d.name] = r
             self.sample[d.name] = sample_decl(d, r, self.rng)
         vals = self.sample[d.name]
         return self.T.tensor([float(v) for v in vals], dtype=self._dt)
@@ -645,12 +648,15 @@ def run_symbolic(fn, loader, max_paths=64, z3_timeout=2000, seed=0, witness_trie
                 outcome = 'gap'; err = f'{type(e).__name__}: {e}'
             else:
                 outcome = 'raised'; err = f'NotImplementedError: {str(e)[:300]}\n' + traceback.format_exc()[-1500:]
-        except TypeError as e:
+        except (TypeError, AttributeError, KeyError, NameError, UnboundLocalError) as e:
+            # raised INSIDE the torch model (innermost frame in pvc/): a signature / value kind the model does not handle, or a defect
+            # of the model itself - an engine gap, never a verdict on the code.  (Errors torch itself would raise are modelled as
+            # RuntimeError / IndexError / ValueError and stay path outcomes.)
             tb = traceback.extract_tb(e.__traceback__)
-            if tb and '/pvc/' in tb[-1].filename and ('unexpected keyword' in str(e) or 'positional argument' in str(e)):
-                outcome = 'gap'; err = f'TypeError in the torch model (signature not modelled): {e}'
+            if tb and '/pvc/' in tb[-1].filename:
+                outcome = 'gap'; err = f'{type(e).__name__} inside the torch model: {str(e)[:200]} ({os.path.basename(tb[-1].filename)}:{tb[-1].lineno})'
             else:
-                outcome = 'raised'; err = f'TypeError: {str(e)[:300]}\n' + traceback.format_exc()[-1500:]
+                outcome = 'raised'; err = f'{type(e).__name__}: {str(e)[:300]}\n' + traceback.format_exc()[-1500:]
         except AssertionError as e:
             outcome = 'raised'; err = 'AssertionError: ' + str(e)[:300] + '\n' + traceback.format_exc()[-1500:]
         except Exception as e:
@@ -742,4 +748,5 @@ def run_numeric(fn, sample=None, tol=1e-8, dtype='float64', rng=None, regime=Non
     finally:
         for (m_, n_, old_) in reversed(env._undo): setattr(m_, n_, old_)
         env._undo = []
-    return dict(clauses=env.clauses, outcome=outcome, error=err, values=env.values, decls=env.decls, sample=dict(env.sample, __seed__=seed_))
+    return dict(clauses=env.clauses, outcome=outcome, error=err, values=env.values, decls=env.decls, sample=dict(env.sample, __seed__=seed_),
+                regimes=dict(env.regimes_used))
